@@ -63,6 +63,32 @@ CLAIMED["C07"] = dict(
     note="Trusted: Lean kernel and standard axioms; model validated by sampling; os.walk order after in-place sort and Python str/tuple "
          "comparison modelled; dir-vs-file clashes between replicas excluded as the property says.")
 
+CLAIMED["C05"] = dict(
+    text="Kernel-checked theorems over a model of `pff hash` generation and check mode (rows, the difference rules incl. the rounded-second "
+         "mtime rule, option switches, single-file filter): the rule per row stated outright; check on the generating tree reports nothing for "
+         "every option set; after arbitrary mutations the reported paths (= errors file) are exactly the recorded files changed or removed, "
+         "each option silencing its own attribute only - for every deterministic hash pair, under the explicit hypothesis that a changed "
+         "content does not collide under both hashes. Tied to /repo by real generate/mutate/check runs with csv-hostile names, relocated roots.",
+    design="§6 C05", technique="Lean 4 proof (decision logic over list models) + model/implementation correspondence on real trees",
+    note="Trusted: Lean kernel and standard axioms; model validated by sampling; hashlib as a parameter with an explicit no-collision "
+         "hypothesis; csv layer exercised with hostile names, not modelled; mtime rounding supplied by the harness.")
+CLAIMED["C16"] = dict(
+    text="Kernel-checked theorems over a state-machine model of `pff hash --update` (removal pass, append pass, single-file filter) and "
+         "arbitrary histories of add/delete/update ops: remove drops only rows of missing files and keeps order; append keeps the old "
+         "database as a prefix and adds each absent file once; for every admissible history a final update -a -r yields exactly the rows "
+         "(path, hashes, size, ext) of a fresh generation, each once (induction over the history with a consistency invariant); the "
+         "admissibility side condition is shown necessary by a kernel-checked witness. Tied to /repo by real step-by-step histories.",
+    design="§6 C16", technique="Lean 4 proof (invariant by induction over operation histories) + model/implementation correspondence on real histories",
+    note="Trusted: Lean kernel and standard axioms; model validated by sampling; admissibility hypothesis (no re-creation with other content "
+         "while the stale row survives) is forced by the property's own clause; csv/os layers exercised not modelled.")
+CLAIMED["C17"] = dict(
+    text="Kernel-checked theorems over a model of --filescraping_recovery (md5/sha1 indexes with last-row-wins, recognition rule, last write "
+         "wins): for every scraped list of contents (names/nesting are never read, so every renaming is covered) the output holds, at each "
+         "recorded path whose content was found, exactly that content with the recorded mtime, and nothing for unknown/damaged files; complete "
+         "scrape => original tree. Under distinct recorded contents and no md5/sha1 collision (explicit). Tied to /repo by real recoveries.",
+    design="§6 C17", technique="Lean 4 proof (list/index reasoning) + model/implementation correspondence on real scraped folders",
+    note="Trusted: Lean kernel and standard axioms; model validated by sampling; no-collision hypothesis explicit; copy2/utime/makedirs exercised.")
+
 NOT_YET = {}
 
 props = [json.loads(l) for l in open(os.path.join(VERIF, "properties.jsonl"))]
